@@ -5,6 +5,6 @@ CONSTANTS
   DP = 1
   EVals = {}
   ChunkVariant = "fixed"
-INVARIANTS ModelOk InRange ForwardIsDefinition DerivativesAreDefinition ExponentFactorsOut ChunksCoverSites
+INVARIANTS ModelOk InRange ForwardIsDefinition DerivativesAreDefinition ExponentFactorsOut UninformativeIsOne ChunksCoverSites
 POSTCONDITION TraceAccepted
 CHECK_DEADLOCK FALSE
